@@ -29,11 +29,20 @@ def run(tier):
                     if tier == "quick" and (im + tg + (1 if nk == "moving" else 0)) % 2 == 1 and c["cfg"]["ns"] < 3:
                         continue
                     cases.append({"cfg": c["cfg"], "sys": c["sys"], "run": {"mode": "system", "neigh": nk, "model": im, "target": tg, "perm": 0}})
+                    # the same point kriging at the nodes of a ROTATED grid (the drift must be evaluated at the real node)
+                    if c["cfg"]["target"] == "point" and c["cfg"]["ndim"] >= 2 and im == (tg + 1) % 3:
+                        cases.append({"cfg": c["cfg"], "sys": c["sys"], "run": {"mode": "system", "neigh": nk, "model": im, "target": tg,
+                                                                              "perm": 0, "tgrid": True}})
+        # consecutive targets with different neighbourhoods in one run (first one possibly heterotopic)
+        if c["cfg"]["target"] == "point":
+            for im in (0, 1):
+                cases.append({"cfg": c["cfg"], "sys": c["sys"], "run": {"mode": "cluster", "neigh": "moving", "model": im}})
     if not cases:
         raise Broken("no case")
     obs = kc.run_cases(ck, cases, "c01")
     cat = {}
     nchecked = 0
+    ncluster = 0
     for o in obs:
         if "crash" in o:
             cs = cases[o["case"]["idx"]]
@@ -42,6 +51,22 @@ def run(tier):
         cs = cases[o["idx"]]
         cfg = cs["cfg"]
         ob = o["obs"]
+        if cs["run"]["mode"] == "cluster":
+            ncluster += 1
+            fails = []
+            if ob["err"] != 0 or ob["errB"] != 0:
+                fails.append("kriging-error-code")
+            else:
+                if not ob["finite"]:
+                    fails.append("undefined-or-non-finite-result")
+                if not (ob["cluster_est"] <= 1e-9):
+                    fails.append("cluster_est")
+                if not (ob["cluster_var"] <= 1e-9):
+                    fails.append("cluster_var")
+            if fails:
+                ck.disagree({"kind": "cluster", "drift": cfg["drift"], "nvar": cfg["nvar"], "verr": cfg["verr"], "fails": fails},
+                            {"case": {"cfg": cfg, "run": cs["run"]}, "observed": ob})
+            continue
         key = (cfg["drift"], cfg["nvar"], cfg["target"], cs["run"]["neigh"], "hetero" if not all(all(r) for r in cfg["def"]) else "iso", cfg["verr"])
         cat[key] = cat.get(key, 0) + 1
         fails = []
@@ -67,7 +92,10 @@ def run(tier):
         for tg in ("point", "block"):
             if not any(k[0] == d and k[2] == tg for k in cat):
                 raise Broken("vacuous: no case for drift %s target %s" % (d, tg))
-    ck.cov["traces_validated_against_impl"] = nchecked
+    if ncluster == 0:
+        raise Broken("vacuous: no two-cluster case")
+    ck.cov["two_cluster_runs"] = ncluster
+    ck.cov["traces_validated_against_impl"] = nchecked + ncluster
     ck.cov["configurations"] = len(confs)
     ck.cov["configurations_not_solvable_skipped"] = skipped
     ck.cov["cases_per_category"] = {"/".join(map(str, k)): v for k, v in sorted(cat.items())}
